@@ -50,10 +50,21 @@ def main(argv) -> int:
             from . import env
             env.bootstrap()
         sys.setrecursionlimit(getattr(mod, 'RECURSION_LIMIT', 1000))
+        watch_defaults = getattr(mod, 'BUILDER_DEFAULTS', False)
+        if watch_defaults:
+            from . import env, omit
+            env.BUILDER_PROXY = True
         if isinstance(spec, dict) and '$replay' in spec:
-            mod.replay(spec['$replay']['case'], ctx)
+            case = spec['$replay']['case']
+            if watch_defaults and isinstance(case, dict) \
+                    and 'builder_default' in case:
+                omit.replay(case, ctx)
+            else:
+                mod.replay(case, ctx)
         else:
             mod.run_shard(spec, ctx)
+        if watch_defaults:
+            omit.drain(ctx)
     except BaseException as e:  # harness failure: never a verdict
         out['harness_error'] = ''.join(
             traceback.format_exception(type(e), e, e.__traceback__))[-4000:]
